@@ -282,6 +282,11 @@ func runC18(c *report.Ctx) {
 					return
 				}
 				ek := sk(f) + ":" + name
+				if pf := f.Parent(); pf != nil { // the same call inside a (deferred) literal of the excepted function
+					if _, isEx := exceptions[sk(pf)+":"+name]; isEx {
+						ek = sk(pf) + ":" + name
+					}
+				}
 				if r, isEx := exceptions[ek]; isEx {
 					c.Exception(ek, r)
 					c.OK(key, "named exception: "+r, posOf(c, in))
@@ -355,7 +360,9 @@ func runC18(c *report.Ctx) {
 					c.OK(sk(upd)+":error=>no-Commit", "Commit unreachable after a closure error", posOf(c, fcall))
 				}
 				// Rollback must-pass from errBlk to any return
-				s2 := &an.Search{P: p, Fn: upd, Cut: isInvokeNamed("Rollback"), GoalReturn: func(r *ssa.Return, pred *ssa.BasicBlock) bool { return true }}
+				s2 := &an.Search{P: p, Fn: upd, Cut: isInvokeNamed("Rollback"), GoalReturn: func(r *ssa.Return, pred *ssa.BasicBlock) bool {
+					return !deferredCallAt(p, r, isInvokeNamed("Rollback")) // a deferred Rollback that runs at this return counts
+				}}
 				if w := s2.Run(errBlk, 0, fcall.Block()); w != nil {
 					c.Fail(sk(upd)+":error=>Rollback", "the error edge of the closure returns without Rollback: the writer lock is never released and the batch is kept", posOf(c, fcall), w...)
 				} else {
